@@ -20,8 +20,9 @@ def run(tier, seed):
     r1 = vh(["c17-replay-buffer", "--in", f"{w}/buffer.ndjson"], name="c17a")
     v.add_report(r1, "buffer transitions")
     # the Unreal 2 string decoder in its own universe (length bytes 0..3 / 128..130, escapes, control codes, stray 01)
-    mc.append(tlc_mc("MC_Buffer.tla", "MC_Buffer_u2.cfg", workers=4, name="c17_u2mc"))
-    g1b = tlc_gen("MC_Buffer.tla", "Gen_Buffer_u2.cfg", "TRANSITION", f"{w}/buffer_u2.ndjson", name="c17_u2gen")
+    mc.append(tlc_mc("MC_Buffer.tla", "MC_Buffer_u2.cfg" if quick else "MC_Buffer_u2_t.cfg", workers=4, name="c17_u2mc"))
+    g1b = tlc_gen("MC_Buffer.tla", "Gen_Buffer_u2.cfg" if quick else "Gen_Buffer_u2_t.cfg", "TRANSITION", f"{w}/buffer_u2.ndjson",
+                  name="c17_u2gen", timeout=1800)
     r1b = vh(["c17-replay-buffer", "--in", f"{w}/buffer_u2.ndjson"], name="c17a2")
     v.add_report(r1b, "unreal 2 string transitions")
     g2 = tlc_gen("MC_VarInt.tla", "Gen_VarInt.cfg", "CASE", f"{w}/varint.ndjson")
